@@ -183,6 +183,43 @@ def large_inputs(ck, P, rng):
                 P.one(f'large.sealed.{name}', seal(hdr2, chain, first, keys, rng), crypto=crypto, desc={'inner': chain, 'inner_first': first, 'keys': keys})
 
 
+def growth_rates(ck, P, rng):
+    """(e2) the same extreme shapes WITHOUT the line monitor, at 16 KB and at 64 KB: CPU time of the call (best of three, thread CPU clock) may grow about
+    fourfold; work done inside C calls (a membership test on a list, a regular expression, a join) executes no line and is only visible here."""
+    n = 930000
+    for (name, first, small), (_n2, _f2, big) in zip(large_chains(16000), large_chains(64000)):
+        n += 1
+        if not ck.mine(n) or 28 + len(big) > 65500:
+            continue
+        costs = []
+        for chain in (small, big):
+            hdr = {'spi_i': gen.rb(rng, 8), 'spi_r': bytes(8), 'major': 2, 'minor': 0, 'exch': 34, 'flags': 0x08, 'mid': 0}
+            clear = codec.enc_header(hdr, first, 28 + len(chain)) + chain
+            best = None
+            for _ in range(3):
+                signal.setitimer(signal.ITIMER_VIRTUAL, 30.0)
+                t0 = time.thread_time()
+                try:
+                    r_msg.Message.parse(clear)
+                except CpuAbort:
+                    best = 30.0
+                    break
+                except Exception:
+                    pass
+                finally:
+                    signal.setitimer(signal.ITIMER_VIRTUAL, 0)
+                dt = time.thread_time() - t0
+                best = dt if best is None else min(best, dt)
+            costs.append(best)
+        ck.count('growth.shapes_timed')
+        ck.seen('growth.cpu_ms_16k_64k', (name, round(costs[0] * 1000, 1), round(costs[1] * 1000, 1)))
+        ck.nontrivial(('growth', name))
+        # four times the input: linear work costs about four times as much; ten times and more than 0.3 s is not linear (absolute floor against timer noise)
+        if costs[1] > 10 * costs[0] and costs[1] > 0.3:
+            ck.violation(f'non-termination-or-superlinear:cpu-time-grows-faster-than-the-input:{name.split(".")[0]}',
+                         {'shape': name, 'cpu_s_at_16k': round(costs[0], 4), 'cpu_s_at_64k': round(costs[1], 4)}, {'shape': name})
+
+
 def hostile_text(ck, P, rng):
     """(g) text fields whose shape is hostile to pattern matching (a long run of one character, then something that cannot match; nested repetitions):
     identities of every ID type, vendor IDs and notification data, in clear and inside SK."""
@@ -417,6 +454,7 @@ def run(ck):
                         P.one(f'sealed.patho-after-clear-payload.{pname}', remac_front(f_, b), crypto=crypto, desc={'inner': b'', 'keys': keys})
     large_inputs(ck, P, rng)
     hostile_text(ck, P, ck.rng('hostile-text'))
+    growth_rates(ck, P, ck.rng('growth'))
     legal_but_unusual(ck, P, ck.rng('unusual', ck.shard[0]))
     long_lived(ck, P, ck.rng('long-lived', ck.shard[0]))
     ck.notes['max_cpu_seconds_of_one_call'] = round(P.max_cpu, 3)
@@ -438,6 +476,7 @@ def verdict(ck):
     ck.floor('distinct long proposals parsed by one process', c['longlived.parsed'], 1500)
     ck.floor('well-formed messages in legal but unusual shapes', c['unusual.messages'], 1200)
     ck.floor('inputs with text hostile to pattern matching', c['hostile_text.inputs'], 500)
+    ck.floor('extreme shapes timed at 16 KB and 64 KB without the line monitor', c['growth.shapes_timed'], 15)
     ck.floor('kind x length pairs inside substructures (selector, proposal, transform, attribute)', c['grid.substructure_pairs'], 2000)
     ck.floor('near-miss texts (long accepted run, then a refused octet) in every identity type and vendor IDs', c['hostile_text.near_misses'], 700)
     ck.floor('large extreme shapes', len(ck.sets['large.shapes']), 15)
